@@ -138,8 +138,15 @@ def evaluate(ck, pidnum, cases, tag):
         b_corr, _ = common.coq_failing(tag + "_c", H.HEADER, "ecase", "corr_ok", sub)
         b_mod, _ = common.coq_failing(tag + "_m", H.HEADER, "ecase", "(fun e => is_nil (model_viol e))", sub)
         b_wf, _ = common.coq_failing(tag + "_w", H.HEADER, "ecase", "(fun e => wf_graph (e_g e))", sub)
+        detail_budget = 20      # per-case Coq evaluations for the report are sequential: cap them
         for k, i in enumerate(bad):
             c = rep[i]
+            if k >= detail_budget:
+                if k in b_impl:
+                    concrete.append(("monitor violated on the implementation's trace (codes not computed: report capped)", c))
+                elif k in b_corr or k in b_mod or k in b_wf:
+                    mism.append(("model and implementation disagree (details capped)", strip(c), ""))
+                continue
             if k in b_impl:
                 codes = common.coq_eval(tag + "_e", H.HEADER, "impl_viol (%s)" % lits[i])
                 concrete.append(("monitor codes on the implementation's trace: " + " ".join(codes.split()), c))
